@@ -31,6 +31,14 @@
             The pair table is obtained by executing the two-candidate predicate for every combination of
             candidate kinds (PairInterp), whatever its spelling (and-chain, any() over a table, dict, helper).
 
+  C19.LOOP  the loop that drives a formula survives every failing round: each Exception-family edge out of
+            `await evaluator.apply()` enters a handler that certainly catches it (Exception / BaseException / bare) and
+            from which the next evaluation follows (no raise / return / break).
+  C19.RESYNC the consumer's re-alignment, which C19.ESYNC relies on for the unsynchronised primary-error path, advances
+            every stream of every lagging group (C06.SYNC re-issued under this property).
+  C19.ERR   also: streams are read with receive() only (anext / __anext__ / async for report a closed stream as
+            StopAsyncIteration, which no ReceiverError handler sees).
+
 LAZY / ERR are decided per scenario (fallback configured / running, received primary valid) on the CFG;
 roles are bound by dataflow (sa/props/_c06_util.py).
 """
@@ -44,7 +52,7 @@ from ..engine.cfg import own_parts
 from ..engine.report import AnalysisError, Run
 from ..engine.resolver import Program, body_walk
 from ..engine.util import canon, canon_total, find_calls, method_call, u
-from ._c06_util import EVAL_CLS, AliasStates, expr_guards, tri, resyncs_on_divergence, VALID_HINT, Flow, HelperCalls, indent_of, inline_all, is_validity_call, validity_name, lifted, names_eq, pruned, unawait, seg, spliced, src_patch, stmt_patch, truth_atom
+from ._c06_util import EVAL_CLS, AliasStates, engine_loop, rereport, expr_guards, tri, resyncs_on_divergence, VALID_HINT, Flow, HelperCalls, indent_of, inline_all, is_validity_call, validity_name, lifted, names_eq, pruned, unawait, seg, spliced, src_patch, stmt_patch, truth_atom
 
 STEPS = "timeseries.formula_engine._formula_steps"
 MF = f"{STEPS}:MetricFetcher"
@@ -54,6 +62,7 @@ GEN_PKG = "timeseries.formula_engine._formula_generators"
 FG = f"{GEN_PKG}._formula_generator:FormulaGenerator"
 RFB = "timeseries.formula_engine._resampled_formula_builder:ResampledFormulaBuilder"
 GRAPH_MOD = "microgrid.component_graph"
+ENGINE_MOD = "timeseries.formula_engine._formula_engine"
 
 
 class SelInterp(HelperCalls, Interp):
@@ -75,6 +84,8 @@ class SelInterp(HelperCalls, Interp):
             return ident
         if ident == "_logger":
             return Obj("logger")
+        if ident == "anext":
+            return ("m", "anext", None)
         raise AnalysisError(f"name {ident} not modelled in C19.SEL")
 
     def get_attr(self, base: Any, attr: str, node: ast.AST) -> Any:
@@ -93,6 +104,8 @@ class SelInterp(HelperCalls, Interp):
             return ("m", "vprobe", attr, base)  # the validity test written in line on the received value
         if isinstance(base, Obj) and base.cls in ("stream", "fallback") and attr == "receive":
             return ("m", "receive", base)
+        if isinstance(base, Obj) and base.cls in ("stream", "fallback") and attr == "__anext__":
+            return ("m", "anext", base)
         if isinstance(base, Obj) and base.cls == "fallback" and attr == "name":
             return "fb"
         return super().get_attr(base, attr, node)
@@ -106,6 +119,25 @@ class SelInterp(HelperCalls, Interp):
         if isinstance(fn, tuple) and fn[0] == "m":
             if fn[1] == "log":
                 return None
+            if fn[1] == "anext":
+                # the async-iterator protocol: `anext(rx)` / `rx.__anext__()` deliver the next sample like receive(), but a
+                # CLOSED stream surfaces as StopAsyncIteration (Receiver.__anext__ converts ReceiverStoppedError), which is
+                # not a ReceiverError
+                src = fn[2] if fn[2] is not None else (pos[0] if pos else None)
+                if not (isinstance(src, Obj) and src.cls in ("stream", "fallback")):
+                    raise AnalysisError("anext() of something that is not a stream in C19.SEL")
+                if src.cls == "stream":
+                    self.scn["primary_receives"] = self.scn.get("primary_receives", 0) + 1
+                    d = self.choose(3, "primary anext: delivers / raises ReceiverError / stream closed (StopAsyncIteration)")
+                    if d == 1:
+                        self.scn["primary_error"] = True
+                        raise _Raise("ReceiverError", node)
+                    if d == 2:
+                        self.scn["primary_error"] = True
+                        raise _Raise("StopAsyncIteration", node)
+                    return Obj("Sample", who="primary", value=Obj("v"))
+                self.scn["fallback_receives"] = self.scn.get("fallback_receives", 0) + 1
+                return Obj("Sample", who="fallback_next")
             if fn[1] == "receive":
                 src = fn[2]
                 if src.cls == "stream":
@@ -145,7 +177,11 @@ class SelInterp(HelperCalls, Interp):
         return bool(self.scn["valid"])
 
     def handler_matches(self, h: ast.ExceptHandler, name: str) -> bool:
-        return "ReceiverError" in u(h.type) if h.type is not None else True
+        if h.type is None:
+            return True
+        if name != "ReceiverError":  # StopAsyncIteration and the like: only a handler that names it or a base class of it
+            return any(k in u(h.type) for k in (name, "Exception", "BaseException"))
+        return "ReceiverError" in u(h.type)
 
     def truth_of(self, v: Any, node: ast.AST | None) -> bool:
         return True
@@ -170,7 +206,10 @@ def check_sel(run: Run, prog: Program) -> None:
         desc = "; ".join(f"{l}={d}" for l, d in zip(out.labels, out.decisions))
         who = out.value.fields.get("who") if isinstance(out.value, Obj) else None
         if out.kind == "raise":
-            run.violation("C19.SEL", fn.qual, "raises", f"path raises {out.value}: {desc}", node=fn.node, file=fn.file)
+            why_r = (": a closed primary stream read through the async-iterator protocol surfaces as StopAsyncIteration, which the "
+                     "ReceiverError handler does not catch -- the term never switches to its fallback, every evaluation fails"
+                     if out.value == "StopAsyncIteration" else "")
+            run.violation("C19.SEL", fn.qual, "raises", f"path raises {out.value}: {desc}{why_r}", node=out.raise_node or fn.node, file=fn.file)
             continue
         if s.get("primary_error"):
             want = "fallback_next"
@@ -264,8 +303,62 @@ def check_err(run: Run, prog: Program) -> None:
                       "classes that do not inherit from BaseException is not allowed` from the except "
                       "clause itself, so the switch to the other source never happens",
                       node=handler, file=m.file, instance=f"{m.qual}: handler around {who}.receive() is catchable")
+    # ... and a stream is read with receive() only: the async-iterator protocol (`anext(rx)`, `rx.__anext__()`, `async for`)
+    # reports a closed stream as StopAsyncIteration -- Receiver.__anext__ converts the ReceiverStoppedError, receive()
+    # converts it back -- which no ReceiverError handler sees
+    proto = protocol_reads(cls)
+    fact = anext_hides_stop()
+    for m, x, how in proto:
+        n += 1
+        run.analysed(m.qual)
+        run.violation("C19.ERR", m.qual, x,
+                      f"`{u(x)[:70]}` reads a stream through the async-iterator protocol ({how}): {fact}, so the `except ReceiverError` "
+                      "handler that switches to the other source does not see a CLOSED stream (other receiver errors are still "
+                      "handled, and the sites that use receive() still switch: the sites no longer agree).  The StopAsyncIteration "
+                      "escapes from fetch_next() on every evaluation, the formula never emits again although the other source "
+                      "keeps delivering valid samples", node=x, file=m.file)
+    if not proto:
+        run.ok("C19.ERR", f"{cls.qual}: streams are read with receive() only, whose failure is a ReceiverError")
     if n < 4:
         raise AnalysisError(f"C19.ERR: only {n} receive() sites found in MetricFetcher")
+
+
+def protocol_reads(cls: Any) -> list[tuple[Any, ast.AST, str]]:
+    """(method, node, how) for every read of a stream through the async-iterator protocol in the methods of `cls`."""
+    out: list[tuple[Any, ast.AST, str]] = []
+    for m in cls.methods.values():
+        for x in ast.walk(m.node):
+            if isinstance(x, ast.Call) and isinstance(x.func, ast.Name) and x.func.id in ("anext", "aiter") and x.args:
+                out.append((m, x, f"builtin {x.func.id}()"))
+            elif isinstance(x, ast.Call) and isinstance(x.func, ast.Attribute) and x.func.attr in ("__anext__", "__aiter__"):
+                out.append((m, x, f"{x.func.attr}()"))
+            elif isinstance(x, ast.AsyncFor):
+                out.append((m, x.iter, "async for"))
+            elif isinstance(x, ast.comprehension) and x.is_async:
+                out.append((m, x.iter, "async comprehension"))
+    return out
+
+
+def anext_hides_stop() -> str:
+    """The library fact the protocol clause rests on, re-read from the installed frequenz.channels source when present:
+    Receiver.__anext__ has a handler for ReceiverStoppedError that raises StopAsyncIteration."""
+    from ..engine.resolver import find_installed_source
+
+    frozen = "Receiver.__anext__ turns ReceiverStoppedError into StopAsyncIteration, which is not a ReceiverError (frequenz.channels 1.x)"
+    path = find_installed_source("frequenz.channels._receiver")
+    if path is None:
+        return frozen
+    try:
+        tree = ast.parse(path.read_text())
+    except (OSError, SyntaxError):
+        return frozen
+    for fn in (x for x in ast.walk(tree) if isinstance(x, ast.AsyncFunctionDef) and x.name == "__anext__"):
+        for h in (x for x in ast.walk(fn) if isinstance(x, ast.ExceptHandler)):
+            if h.type is not None and "ReceiverStoppedError" in u(h.type) and any(
+                    isinstance(r, ast.Raise) and r.exc is not None and "StopAsyncIteration" in u(r.exc) for r in ast.walk(h)):
+                return frozen + f" [read from {path.name}:{h.lineno}]"
+    raise AnalysisError("frequenz.channels: Receiver.__anext__ no longer converts ReceiverStoppedError into StopAsyncIteration "
+                        "(the C19.ERR protocol clause rests on that)")
 
 
 def _only_without_fallback(prog: Program, m: Any, call: ast.Call) -> bool:
@@ -1164,6 +1257,81 @@ def check_pair(run: Run, prog: Program) -> None:
               node=node, file=meter_fn.file)
 
 
+def round_exceptions(prog: Program) -> list[tuple[str, str, int]]:
+    """(exception class, where, line) of what a round of the evaluator can raise by its own statements: `raise X(..)` and
+    `assert` in FormulaEvaluator's methods and in MetricFetcher's fetch path (for the message of C19.LOOP)."""
+    out: list[tuple[str, str, int]] = []
+    for cq in (EVAL_CLS, MF):
+        for m in prog.cls(cq).methods.values():
+            if m.name.startswith("__") and m.name != "__call__":
+                continue
+            for x in ast.walk(m.node):
+                if isinstance(x, ast.Assert):
+                    out.append(("AssertionError", f"{m.name}: `assert {u(x.test)[:50]}`", x.lineno))
+                elif isinstance(x, ast.Raise) and x.exc is not None:
+                    f_ = x.exc.func if isinstance(x.exc, ast.Call) else x.exc
+                    out.append((u(f_).split(".")[-1], f"{m.name}: `raise {u(f_)}(..)`", x.lineno))
+    return out
+
+
+def check_loop(run: Run, prog: Program) -> None:
+    """C19.LOOP ("... apart from a bounded start-up delay after the first failure"): a source failing makes single rounds
+    of the evaluator fail -- `_fetch_next` starts the fallback and reports "no sample" (the round raises RuntimeError, or,
+    inside the re-synchronisation, trips over `assert next_val is not None`: AssertionError), a step may raise -- and
+    the next round then reads the fallback.  That only happens if the loop that drives the evaluator is still there:
+    whatever Exception a round raises, the loop goes on to the next evaluation (it does not end, it does not let the
+    exception out of the task).  Decided on the exception-aware CFG of FormulaEngine._run: every Exception-family edge
+    out of `await evaluator.apply()` enters a handler that certainly catches it (`Exception`, `BaseException`, bare), and
+    from that handler no `raise` / `return` / `break` leaves the loop before the next apply()."""
+    lp = engine_loop(prog)
+    raw, cfg, a = lp.raw, lp.cfg, lp.a
+    run.analysed(raw.qual)
+    e_targets = [m for m, lab in lp.exc_targets if lab == "exc:E"]
+    escapes = [m for m in e_targets if m == cfg.raise_exit or cfg.nodes[m].kind != "handler"]
+    gt = lp.guarding_try()
+    caught = sorted({u(h.type) if h.type is not None else "<bare>" for h in (gt[1].handlers if gt else [])})
+    others = [(c, w, ln) for c, w, ln in round_exceptions(prog)]
+    from ..engine.cfg import exc_ancestors
+
+    def covered(c: str) -> bool:
+        anc = exc_ancestors(c) or [c, "Exception", "BaseException"]
+        return gt is not None and any(h.type is None or any(k.split(".")[-1].split("[")[0] in anc for k in (
+            [u(e) for e in h.type.elts] if isinstance(h.type, ast.Tuple) else [u(h.type)])) for h in gt[1].handlers)
+
+    loose = [(c, w, ln) for c, w, ln in others if not covered(c)]
+    node = (gt[1].handlers[-1] if gt and gt[1].handlers else raw.node)
+    run.check(bool(e_targets) and not escapes, "C19.LOOP", raw.qual, "every Exception of a round is caught by the loop",
+              f"an Exception raised by `{u(lp.apply)}` can leave {raw.name}() (handlers around it: {caught or 'none'}): the task that drives "
+              "the formula ends, and nothing is emitted any more although the fallback that was just started delivers valid samples"
+              + ("; not covered e.g. " + "; ".join(f"{c} from {w} (line {ln})" for c, w, ln in loose[:3]) if loose else "")
+              + ".  A round fails in many ways while a source is failing -- a primary that fails before its fallback runs makes "
+              "_fetch_next return None, which the evaluator reports as RuntimeError in apply() but as AssertionError inside the "
+              "(re-)synchronisation -- so only a handler for Exception itself keeps the loop alive (a narrower class, a tuple of "
+              "classes, no handler at all are the same mistake)", node=node, file=raw.file)
+    wit = None
+    for m in e_targets:
+        if m not in escapes:
+            wit = wit or cfg.path(m, [cfg.exit, cfg.raise_exit], avoid=[a], edge_ok=lp.explicit)
+    run.check(wit is None, "C19.LOOP", raw.qual, "a failed round is followed by the next evaluation",
+              "the handler of a failed round leaves the loop (re-raises, returns or breaks): after the first failing round -- the "
+              "normal course of a fallback take-over -- the formula never emits again", node=node, file=raw.file,
+              path=cfg.describe_path(wit))
+
+
+def check_resync(run: Run, prog: Program) -> None:
+    """C19.RESYNC ("... the term's value is taken from the sum of its fallback components *for the same timestamp*"): when
+    the primary stream fails, fetch_next_with_fallback() hands the round the fallback's next sample unsynchronised, and
+    C19.ESYNC accepts that only because the consumer re-aligns its inputs whenever their timestamps differ.  That
+    re-alignment is the evaluator's synchronisation routine, so its obligations are obligations of the fallback
+    switch: every stream of every lagging group is advanced in each pass until the group reaches the latest timestamp,
+    overshooting is an error, the latest timestamp is what is returned (C06.SYNC, run there and reported here)."""
+    from . import c06
+
+    s06 = Run("C06", "quick", 0)
+    c06.check_sync(s06, prog)
+    rereport(run, s06, ("C06.SYNC",), "C19.RESYNC")
+
+
 def build_controls(prog: Program) -> list[tuple[str, str, str, str, str]]:
     """Seeded in-memory controls, cut out of the live source at structurally located anchors (so they
     survive renamed locals, changed log texts, introduced locals): each breaks one obligation."""
@@ -1172,6 +1340,27 @@ def build_controls(prog: Program) -> list[tuple[str, str, str, str, str]]:
     def add(name: str, module: str, patch: tuple[str, str] | None, rule: str) -> None:
         if patch is not None:
             out.append((name, module, patch[0], patch[1], rule))
+
+    # LOOP: the engine loop survives RuntimeError only
+    try:
+        gt = engine_loop(prog).guarding_try()
+    except AnalysisError:
+        gt = None
+    if gt is not None:
+        holder, t_ = gt
+        for h in t_.handlers:
+            if h.type is not None and u(h.type) == "Exception":
+                add("engine loop survives RuntimeError only", ENGINE_MOD, src_patch(
+                    holder.module, h.lineno, h.type.end_lineno or h.lineno, lambda t: t.replace("except Exception", "except RuntimeError", 1)), "C19.LOOP")
+                break
+    # RESYNC: the drain loops of the evaluator's (re-)synchronisation interchanged
+    from .c06 import interchange_patch
+    add("re-synchronisation advances one stream of a lagging group only", EVAL_CLS.split(":")[0], interchange_patch(prog), "C19.RESYNC")
+    # ERR: the primary read through the async-iterator protocol
+    for c in find_calls(prog.func(f"{MF}.fetch_next_with_fallback").node, lambda c: method_call(c, "self._stream", "receive"))[:1]:
+        fw_ = prog.func(f"{MF}.fetch_next_with_fallback")
+        txt = seg(fw_.module, c)
+        add("primary read with anext()", STEPS, stmt_patch(fw_, c, lambda t, txt=txt: t.replace(txt, "anext(self._stream)", 1)), "C19.ERR")
 
     mfc = prog.cls(MF)
     fw = prog.func(f"{MF}.fetch_next_with_fallback")
@@ -1312,7 +1501,7 @@ def build_controls(prog: Program) -> list[tuple[str, str, str, str, str]]:
     except AnalysisError:
         pass
     if len(out) < 4:
-        raise AnalysisError(f"C19: only {len(out)} of 13 seeded controls could be derived from the source "
+        raise AnalysisError(f"C19: only {len(out)} of 16 seeded controls could be derived from the source "
                             f"({[o[0] for o in out]})")
     return out
 
@@ -1327,6 +1516,8 @@ def run_rules(run: Run, prog: Program) -> None:
     check_buf(run, prog)
     check_metric(run, prog)
     check_pair(run, prog)
+    check_loop(run, prog)
+    check_resync(run, prog)
 
 
 def check(run: Run, prog: Program, tier: str) -> str:
@@ -1345,7 +1536,13 @@ def check(run: Run, prog: Program, tier: str) -> str:
              "constructor as the formula whose term it backs")
     run.rule("C19.PAIR", "which components back which meter: the selection of a meter's fallback components and the (device, meter) "
              "pair table name the same device kinds, and each pair is the component graph's own definition of that meter kind")
+    run.rule("C19.LOOP", "the loop that drives a formula survives every failing round: whatever Exception evaluator.apply() raises "
+             "is caught (Exception / BaseException / bare) and followed by the next evaluation")
+    run.rule("C19.RESYNC", "the consumer's re-alignment, on which the unsynchronised fallback sample of the primary-error path relies, "
+             "advances every stream of every lagging group up to the latest timestamp (C06.SYNC under this property)")
     run_rules(run, prog)
+    run.floor("C19.LOOP", 2)
+    run.floor("C19.RESYNC", 4)
     run.floor("C19.SEL", 10)
     run.floor("C19.TICK", 4)
     run.floor("C19.KEEP", 2)
